@@ -226,7 +226,6 @@ theorem atoi_digits {ds : List Char} (hne : ds ≠ []) (hd : ∀ c ∈ ds, isDig
       · rename_i h; injection h with h1 h2; exact absurd h1 hd0.2
       · cases heq
         simp [hall]
-        omega
 
 theorem atoi_neg_digits {ds : List Char} (hne : ds ≠ []) (hd : ∀ c ∈ ds, isDigit c = true) :
     atoi ('-' :: ds) =
@@ -235,7 +234,6 @@ theorem atoi_neg_digits {ds : List Char} (hne : ds ≠ []) (hd : ∀ c ∈ ds, i
   have hall : ds.all isDigit = true := List.all_eq_true.mpr hd
   have hemp : ds.isEmpty = false := by cases ds <;> simp_all
   simp [atoi, hall, hemp]
-  omega
 
 theorem atoi_itoa {i : Int} (h : inInt64 i = true) : atoi (itoa i) = some i := by
   simp [inInt64] at h
@@ -260,5 +258,842 @@ theorem atoi_none_of_mem {s : List Char} {c : Char} (hc : c ∈ s) (hd : isDigit
     have : ds.all isDigit = false := by
       rw [List.all_eq_false]; exact ⟨c, hmem, by simp [hd]⟩
     simp [this]
+
+/-! ## Float texts -/
+
+theorem takeWhile_all_append {p : Char → Bool} {xs rest : List Char}
+    (hx : ∀ c ∈ xs, p c = true) (h : ∀ a, rest.head? = some a → p a = false) :
+    (xs ++ rest).takeWhile p = xs := by
+  induction xs with
+  | nil =>
+    cases rest with
+    | nil => rfl
+    | cons a r => simp [h a rfl]
+  | cons x xs ih =>
+    have : p x = true := hx x (by simp)
+    simp only [List.cons_append, List.takeWhile_cons, this, if_true]
+    rw [ih (fun c hc => hx c (by simp [hc]))]
+
+theorem digits1_iff {s : List Char} : digits1 s = true ↔ s ≠ [] ∧ ∀ c ∈ s, isDigit c = true := by
+  cases s <;> simp [digits1]
+
+/-- the two shapes of an unsigned float text -/
+theorem unsignedFloat_shape {s : List Char} (h : unsignedFloat s = true) :
+    digits1 s = true ∨ ∃ ip fp, digits1 ip = true ∧ digits1 fp = true ∧ s = ip ++ '.' :: fp := by
+  unfold unsignedFloat at h
+  simp only [Bool.and_eq_true, Bool.or_eq_true] at h
+  obtain ⟨hip, hrest⟩ := h
+  have hs : s = s.takeWhile isDigit ++ s.dropWhile isDigit := List.takeWhile_append_dropWhile.symm
+  rcases hrest with he | ⟨hh, hfp⟩
+  · left
+    have : s.dropWhile isDigit = [] := by simpa using he
+    rw [this, List.append_nil] at hs
+    rw [hs]; exact hip
+  · right
+    refine ⟨s.takeWhile isDigit, (s.dropWhile isDigit).drop 1, hip, hfp, ?_⟩
+    generalize s.dropWhile isDigit = rest at hs hh
+    cases rest with
+    | nil => simp at hh
+    | cons a r =>
+      simp at hh; subst hh
+      simpa using hs
+
+theorem unsignedFloat_int {ip : List Char} (h : digits1 ip = true) : unsignedFloat ip = true := by
+  have hd := (digits1_iff.mp h).2
+  have h1 : ip.takeWhile isDigit = ip := by
+    have := takeWhile_all_append (p := isDigit) (xs := ip) (rest := []) hd (by simp)
+    simpa using this
+  have h2 : ip.dropWhile isDigit = [] := by
+    have := dropWhile_all_append (p := isDigit) (ws := ip) (rest := []) hd (by simp)
+    simpa using this
+  simp [unsignedFloat, h1, h2, h]
+
+theorem unsignedFloat_frac {ip fp : List Char} (h : digits1 ip = true) (hf : digits1 fp = true) :
+    unsignedFloat (ip ++ '.' :: fp) = true := by
+  have hd := (digits1_iff.mp h).2
+  have hdot : ∀ a, ('.' :: fp).head? = some a → isDigit a = false := by
+    intro a ha; simp at ha; subst ha; decide
+  have h1 := takeWhile_all_append (p := isDigit) (xs := ip) (rest := '.' :: fp) hd hdot
+  have h2 := dropWhile_all_append (p := isDigit) (ws := ip) (rest := '.' :: fp) hd hdot
+  simp [unsignedFloat, h1, h2, h, hf]
+
+theorem unsignedFloat_head {s : List Char} (h : unsignedFloat s = true) :
+    ∃ a r, s = a :: r ∧ isDigit a = true := by
+  have key : ∀ ip : List Char, digits1 ip = true → ∀ t, ∃ a r, ip ++ t = a :: r ∧ isDigit a = true := by
+    intro ip hip t
+    obtain ⟨hne, hd⟩ := digits1_iff.mp hip
+    cases ip with
+    | nil => exact absurd rfl hne
+    | cons a r => exact ⟨a, r ++ t, rfl, hd a (by simp)⟩
+  rcases unsignedFloat_shape h with h | ⟨ip, fp, hip, _, rfl⟩
+  · simpa using key s h []
+  · exact key ip hip _
+
+/-- `floatRaw` as a shape: sign, integer digits, optional fraction -/
+inductive FShape : List Char → Prop
+  | int (sg ip : List Char) : (sg = [] ∨ sg = ['-']) → digits1 ip = true → FShape (sg ++ ip)
+  | frac (sg ip fp : List Char) : (sg = [] ∨ sg = ['-']) → digits1 ip = true → digits1 fp = true →
+      FShape (sg ++ ip ++ '.' :: fp)
+
+theorem floatRaw_unsigned {s : List Char} (h : unsignedFloat s = true) : floatRaw s = true := by
+  obtain ⟨a, r, rfl, ha⟩ := unsignedFloat_head h
+  have : a ≠ '-' := (isDigit_not_sign ha).2
+  simp [floatRaw, this, h]
+
+theorem floatRaw_neg {s : List Char} (h : unsignedFloat s = true) : floatRaw ('-' :: s) = true := by
+  simp [floatRaw, h]
+
+theorem floatRaw_shape {s : List Char} (h : floatRaw s = true) : FShape s := by
+  have key : ∀ sg body, (sg = [] ∨ sg = ['-']) → unsignedFloat body = true → FShape (sg ++ body) := by
+    intro sg body hsg hb
+    rcases unsignedFloat_shape hb with hb | ⟨ip, fp, hip, hfp, rfl⟩
+    · exact .int sg body hsg hb
+    · rw [← List.append_assoc]; exact .frac sg ip fp hsg hip hfp
+  unfold floatRaw at h
+  split at h
+  next hh =>
+    cases s with
+    | nil => simp at hh
+    | cons a r =>
+      simp at hh; subst hh
+      simpa using key ['-'] r (Or.inr rfl) (by simpa using h)
+  next => simpa using key [] s (Or.inl rfl) h
+
+theorem FShape_floatRaw {s : List Char} (h : FShape s) : floatRaw s = true := by
+  cases h with
+  | int sg ip hsg hip =>
+    rcases hsg with rfl | rfl
+    · simpa using floatRaw_unsigned (unsignedFloat_int hip)
+    · simpa using floatRaw_neg (unsignedFloat_int hip)
+  | frac sg ip fp hsg hip hfp =>
+    rcases hsg with rfl | rfl
+    · simpa using floatRaw_unsigned (unsignedFloat_frac hip hfp)
+    · simpa using floatRaw_neg (unsignedFloat_frac hip hfp)
+
+/-- a character of a float text -/
+def floatChar (c : Char) : Bool := isDigit c || c == '-' || c == '.'
+
+theorem floatRaw_chars {s : List Char} (h : floatRaw s = true) : ∀ c ∈ s, floatChar c = true := by
+  have hd : ∀ ip : List Char, digits1 ip = true → ∀ c ∈ ip, floatChar c = true := by
+    intro ip hip c hc; simp [floatChar, (digits1_iff.mp hip).2 c hc]
+  have hs : ∀ sg : List Char, (sg = [] ∨ sg = ['-']) → ∀ c ∈ sg, floatChar c = true := by
+    intro sg hsg c hc
+    rcases hsg with rfl | rfl
+    · simp at hc
+    · simp at hc; subst hc; decide
+  intro c hc
+  cases floatRaw_shape h with
+  | int sg ip hsg hip =>
+    rcases List.mem_append.mp hc with hc | hc
+    · exact hs sg hsg c hc
+    · exact hd ip hip c hc
+  | frac sg ip fp hsg hip hfp =>
+    rcases List.mem_append.mp hc with hc | hc
+    · rcases List.mem_append.mp hc with hc | hc
+      · exact hs sg hsg c hc
+      · exact hd ip hip c hc
+    · rcases List.mem_cons.mp hc with rfl | hc
+      · decide
+      · exact hd fp hfp c hc
+
+theorem floatRaw_ne_nil {s : List Char} (h : floatRaw s = true) : s ≠ [] := by
+  rintro rfl; revert h; decide
+
+/-- the writer's float text is again of float shape and always contains a `.` -/
+theorem formatFloat_shape {raw : List Char} (h : floatRaw raw = true) :
+    floatRaw (formatFloat raw) = true ∧ '.' ∈ formatFloat raw := by
+  unfold formatFloat
+  cases floatRaw_shape h with
+  | int sg ip hsg hip =>
+    have hall : (sg ++ ip).all (fun c => isDigit c || c == '-') = true := by
+      rw [List.all_eq_true]
+      intro c hc
+      rcases List.mem_append.mp hc with hc | hc
+      · rcases hsg with rfl | rfl
+        · simp at hc
+        · simp at hc; subst hc; decide
+      · simp [(digits1_iff.mp hip).2 c hc]
+    rw [if_pos hall]
+    constructor
+    · have := FShape.frac sg ip ['0'] hsg hip (by decide)
+      exact FShape_floatRaw (by simpa using this)
+    · simp
+  | frac sg ip fp hsg hip hfp =>
+    have hmem : '.' ∈ sg ++ ip ++ '.' :: fp := by simp
+    have hall : (sg ++ ip ++ '.' :: fp).all (fun c => isDigit c || c == '-') = false := by
+      rw [List.all_eq_false]
+      exact ⟨'.', hmem, by decide⟩
+    rw [hall]
+    exact ⟨h, hmem⟩
+
+/-! ## Value level -/
+
+theorem true_toList : "true".toList = ['t', 'r', 'u', 'e'] := by decide
+theorem false_toList : "false".toList = ['f', 'a', 'l', 's', 'e'] := by decide
+
+theorem okStr_chars {s : List Char} (h : okStr s = true) :
+    ∀ c ∈ s, c ≠ '"' ∧ c ≠ '\\' ∧ c ≠ '\n' ∧ c ≠ '\r' := by
+  intro c hc
+  simp only [okStr, Bool.and_eq_true, List.all_eq_true] at h
+  have := h.1.1 c hc
+  simp at this
+  obtain ⟨⟨⟨a, b⟩, c⟩, d⟩ := this
+  exact ⟨a, b, c, d⟩
+
+theorem formatValue_str {s : List Char} (h : okStr s = true) :
+    formatValue (.str s) = '"' :: s ++ ['"'] := by
+  simp only [okStr, Bool.and_eq_true] at h
+  have h1 : (s == "true".toList) = false := by simpa using h.1.2
+  have h2 : (s == "false".toList) = false := by simpa using h.2
+  simp only [formatValue, h1, h2]
+  rfl
+
+theorem trimQuotes_quoted {s : List Char} (h : ∀ c ∈ s, c ≠ '"') :
+    trimQuotes ('"' :: s ++ ['"']) = s := by
+  unfold trimQuotes
+  have hq : ∀ a, (s ++ ['"']).reverse.head? = some a → True := fun _ _ => trivial
+  rcases List.eq_nil_or_concat s with rfl | ⟨r, b, rfl⟩
+  · simp
+  · have hb : b ≠ '"' := h b (by simp)
+    have hhead : ∃ a t, r.concat b = a :: t ∧ a ≠ '"' := by
+      cases r with
+      | nil => exact ⟨b, [], rfl, hb⟩
+      | cons a t => exact ⟨a, t.concat b, rfl, h a (by simp)⟩
+    obtain ⟨a, t, hat, ha⟩ := hhead
+    have h1 : ('"' :: r.concat b ++ ['"']).dropWhile (· == '"') = r.concat b ++ ['"'] := by
+      rw [hat]; simp [ha]
+    rw [h1]
+    simp [hb]
+
+theorem floatChar_facts {c : Char} (h : floatChar c = true) :
+    isSpace c = false ∧ c ≠ '\\' ∧ c ≠ '"' ∧ c ≠ '#' ∧ c ≠ 't' ∧ c ≠ 'f' ∧ c ≠ '\n' := by
+  refine ⟨?_, ?_, ?_, ?_, ?_, ?_, ?_⟩
+  · simp [floatChar, isDigit] at h
+    rcases h with (h | h) | h
+    · simp [isSpace]; omega
+    · subst h; decide
+    · subst h; decide
+  all_goals (rintro rfl; revert h; decide)
+
+/-- `parseValue` on a non-empty text made of digits, `-`, `.` only -/
+theorem parseValue_numeric (pf : List Char → Bool) {val : List Char} (hne : val ≠ [])
+    (hn : ∀ c ∈ val, floatChar c = true) :
+    parseValue pf val =
+      match atoi val with
+      | some i => .int i
+      | none => if pf val then .float val else .str val := by
+  have h1 : (val.head? == some '"' && val.getLast? == some '"') = false := by
+    cases val with
+    | nil => exact absurd rfl hne
+    | cons a r =>
+      have : a ≠ '"' := (floatChar_facts (hn a (by simp))).2.2.1
+      simp [this]
+  have h2 : (val == "true".toList) = false := by
+    rw [true_toList]
+    apply Bool.eq_false_iff.mpr
+    intro h
+    have : val = ['t', 'r', 'u', 'e'] := by simpa using h
+    exact (floatChar_facts (hn 't' (by simp [this]))).2.2.2.2.1 rfl
+  have h3 : (val == "false".toList) = false := by
+    rw [false_toList]
+    apply Bool.eq_false_iff.mpr
+    intro h
+    have : val = ['f', 'a', 'l', 's', 'e'] := by simpa using h
+    exact (floatChar_facts (hn 'f' (by simp [this]))).2.2.2.2.2.1 rfl
+  unfold parseValue
+  simp only [h1, h2, h3, Bool.false_eq_true, if_false]
+  rfl
+
+theorem itoa_chars {i : Int} : itoa i ≠ [] ∧ ∀ c ∈ itoa i, floatChar c = true := by
+  unfold itoa
+  split
+  · refine ⟨by simp, ?_⟩
+    intro c hc
+    rcases List.mem_cons.mp hc with rfl | hc
+    · decide
+    · simp [floatChar, natDigits_all _ c hc]
+  · refine ⟨natDigits_ne_nil _, ?_⟩
+    intro c hc
+    simp [floatChar, natDigits_all _ c hc]
+
+/-- 1. Value level: what the writer emits for a writable value is read back as that value. -/
+theorem parseValue_formatValue (pf : List Char → Bool)
+    (hpf : ∀ t, floatRaw t = true → pf t = true) (v : WVal) (hv : writable v = true) :
+    parseValue pf (formatValue v) = expectRead v := by
+  cases v with
+  | str s =>
+    have hs : okStr s = true := hv
+    rw [formatValue_str hs]
+    have hq : ∀ c ∈ s, c ≠ '"' := fun c hc => (okStr_chars hs c hc).1
+    unfold parseValue
+    have : (('"' :: s ++ ['"']).head? == some '"' && ('"' :: s ++ ['"']).getLast? == some '"') = true := by
+      rw [show '"' :: s ++ ['"'] = ('"' :: s) ++ ['"'] from rfl, List.getLast?_concat]
+      simp
+    rw [if_pos this, trimQuotes_quoted hq]
+    rfl
+  | bool b => cases b <;> rfl
+  | int i =>
+    have hi : inInt64 i = true := hv
+    show parseValue pf (itoa i) = .int i
+    rw [parseValue_numeric pf itoa_chars.1 itoa_chars.2, atoi_itoa hi]
+  | float raw =>
+    have hr : floatRaw raw = true := hv
+    obtain ⟨hsh, hdot⟩ := formatFloat_shape hr
+    show parseValue pf (formatFloat raw) = .float (formatFloat raw)
+    rw [parseValue_numeric pf (floatRaw_ne_nil hsh) (floatRaw_chars hsh),
+      atoi_none_of_mem hdot (by decide) (by decide) (by decide)]
+    simp [hpf _ hsh]
+
+/-! ## Shape of a formatted value -/
+
+/-- an unquoted value text: non-empty, no white space, no `\`, `"`, `#` -/
+def plainVal (t : List Char) : Prop :=
+  t ≠ [] ∧ ∀ c ∈ t, isSpace c = false ∧ c ≠ '\\' ∧ c ≠ '"' ∧ c ≠ '#'
+
+theorem isSpace_facts {c : Char} (h : isSpace c = true) :
+    c ≠ '\\' ∧ c ≠ '"' ∧ c ≠ '#' ∧ c ≠ '=' ∧ c ≠ '[' := by
+  refine ⟨?_, ?_, ?_, ?_, ?_⟩ <;> (rintro rfl; revert h; decide)
+
+theorem keyChar_facts {c : Char} (h : keyChar c = true) :
+    isSpace c = false ∧ c ≠ '=' ∧ c ≠ '#' ∧ c ≠ '[' ∧ c ≠ '\n' := by
+  refine ⟨?_, ?_, ?_, ?_, ?_⟩
+  · simp [keyChar] at h
+    simp [isSpace]; omega
+  all_goals (rintro rfl; revert h; decide)
+
+theorem formatValue_form {v : WVal} (hv : writable v = true) :
+    plainVal (formatValue v) ∨ ∃ s, okStr s = true ∧ formatValue v = '"' :: s ++ ['"'] := by
+  have hnum : ∀ t : List Char, t ≠ [] → (∀ c ∈ t, floatChar c = true) → plainVal t := by
+    intro t hne ht
+    refine ⟨hne, fun c hc => ?_⟩
+    have := floatChar_facts (ht c hc)
+    exact ⟨this.1, this.2.1, this.2.2.1, this.2.2.2.1⟩
+  cases v with
+  | str s => exact Or.inr ⟨s, hv, formatValue_str hv⟩
+  | bool b =>
+    left
+    cases b
+    · show plainVal "false".toList
+      rw [false_toList]; refine ⟨by simp, ?_⟩; decide
+    · show plainVal "true".toList
+      rw [true_toList]; refine ⟨by simp, ?_⟩; decide
+  | int i => exact Or.inl (hnum _ itoa_chars.1 itoa_chars.2)
+  | float raw =>
+    have hsh := (formatFloat_shape (raw := raw) hv).1
+    exact Or.inl (hnum _ (floatRaw_ne_nil hsh) (floatRaw_chars hsh))
+
+theorem tight_of_noSpace {t : List Char} (hne : t ≠ []) (h : ∀ c ∈ t, isSpace c = false) : tight t := by
+  refine ⟨hne, fun a ha => h a (List.mem_of_mem_head? ha), fun a ha => h a (List.mem_of_getLast? ha)⟩
+
+theorem formatValue_tight {v : WVal} (hv : writable v = true) : tight (formatValue v) := by
+  rcases formatValue_form hv with ⟨hne, hc⟩ | ⟨s, _, hs⟩
+  · exact tight_of_noSpace hne (fun c h => (hc c h).1)
+  · rw [hs]
+    refine ⟨by simp, ?_, ?_⟩
+    · intro a ha; simp at ha; subst ha; decide
+    · intro a ha
+      rw [show '"' :: s ++ ['"'] = ('"' :: s) ++ ['"'] from rfl, List.getLast?_concat] at ha
+      cases ha; decide
+
+theorem formatValue_noLF {v : WVal} (hv : writable v = true) : '\n' ∉ formatValue v := by
+  rcases formatValue_form hv with ⟨_, hc⟩ | ⟨s, hok, hs⟩
+  · intro h
+    have := (hc _ h).1
+    revert this; decide
+  · rw [hs]
+    intro h
+    simp at h
+    exact (okStr_chars hok _ h).2.2.1 rfl
+
+/-! ## Inline comments -/
+
+theorem stripLoop_run (q : Bool) (xs rest : List Char) :
+    ∀ acc, (∀ c ∈ xs, c ≠ '\\' ∧ c ≠ '"' ∧ (q = false → c ≠ '#')) →
+      stripLoop (xs ++ rest) q false acc = stripLoop rest q false (xs.reverse ++ acc) := by
+  induction xs with
+  | nil => intro acc _; rfl
+  | cons x xs ih =>
+    intro acc h
+    obtain ⟨h1, h2, h3⟩ := h x (by simp)
+    have h4 : (x == '#' && !q) = false := by
+      cases q
+      · simp [h3 rfl]
+      · simp
+    rw [List.cons_append, stripLoop]
+    simp only [Bool.false_eq_true, if_false, beq_iff_eq, h1, h2, h4]
+    rw [ih (x :: acc) (fun c hc => h c (by simp [hc]))]
+    simp
+
+/-- what may follow a value on its line: blanks, or blanks and a `#` comment -/
+def Tail (rest : List Char) : Prop :=
+  allSp rest ∨ ∃ ws c, allSp ws ∧ rest = ws ++ '#' :: c
+
+theorem stripLoop_allSp {ws : List Char} (h : allSp ws) (rest acc : List Char) :
+    stripLoop (ws ++ rest) false false acc = stripLoop rest false false (ws.reverse ++ acc) :=
+  stripLoop_run false ws rest acc (fun c hc =>
+    have := isSpace_facts (h c hc)
+    ⟨this.1, this.2.1, fun _ => this.2.2.1⟩)
+
+theorem stripLoop_tail {rest : List Char} (ht : Tail rest) (acc : List Char) :
+    ∃ ws, allSp ws ∧ stripLoop rest false false acc = acc.reverse ++ ws := by
+  rcases ht with h | ⟨ws, c, h, rfl⟩
+  · refine ⟨rest, h, ?_⟩
+    have := stripLoop_allSp h [] acc
+    rw [List.append_nil] at this
+    rw [this, stripLoop]; simp
+  · refine ⟨ws, h, ?_⟩
+    rw [stripLoop_allSp h, stripLoop]
+    simp
+
+theorem stripLoop_formatValue {v : WVal} (hv : writable v = true) (rest : List Char) :
+    stripLoop (formatValue v ++ rest) false false [] =
+      stripLoop rest false false (formatValue v).reverse := by
+  rcases formatValue_form hv with ⟨_, hc⟩ | ⟨s, hok, hs⟩
+  · rw [stripLoop_run false _ rest [] (fun c h => ⟨(hc c h).2.1, (hc c h).2.2.1, fun _ => (hc c h).2.2.2⟩)]
+    simp
+  · rw [hs]
+    have hrun := stripLoop_run true s ('"' :: rest) ['"'] (fun c h =>
+      ⟨(okStr_chars hok c h).2.1, (okStr_chars hok c h).1, fun hq => by cases hq⟩)
+    have e : '"' :: s ++ ['"'] ++ rest = '"' :: (s ++ '"' :: rest) := by simp
+    rw [e, stripLoop]
+    simp only [Bool.false_eq_true, if_false]
+    rw [if_neg (by decide), if_pos (by decide)]
+    show stripLoop (s ++ '"' :: rest) true false ['"'] = _
+    rw [hrun, stripLoop]
+    simp only [Bool.false_eq_true, if_false]
+    rw [if_neg (by decide), if_pos (by decide)]
+    simp
+
+theorem stripInlineComment_formatValue {v : WVal} (hv : writable v = true) {rest : List Char}
+    (ht : Tail rest) : stripInlineComment (formatValue v ++ rest) = formatValue v := by
+  unfold stripInlineComment
+  rw [stripLoop_formatValue hv]
+  obtain ⟨ws, hws, h⟩ := stripLoop_tail ht (formatValue v).reverse
+  rw [h, List.reverse_reverse]
+  have := trimSpace_sandwich allSp_nil hws (formatValue_tight hv)
+  simpa using this
+
+theorem trimSpace_tail {ws1 m rest : List Char} (h1 : allSp ws1) (hm : tight m) (ht : Tail rest) :
+    ∃ rest', Tail rest' ∧ trimSpace (ws1 ++ m ++ rest) = m ++ rest' := by
+  rcases ht with h | ⟨ws, c, h, rfl⟩
+  · exact ⟨[], Or.inl allSp_nil, by rw [trimSpace_sandwich h1 h hm]; simp⟩
+  · obtain ⟨hne, hh, _⟩ := hm
+    cases m with
+    | nil => exact absurd rfl hne
+    | cons a X =>
+      have ha : isSpace a = false := hh a rfl
+      obtain ⟨c', hc'⟩ := trimSpace_keep (ws1 := ws1) (X := X ++ ws) (c := c) (a := a) (b := '#')
+        h1 ha (by decide)
+      refine ⟨ws ++ '#' :: c', Or.inr ⟨ws, c', h, rfl⟩, ?_⟩
+      have e : ws1 ++ a :: X ++ (ws ++ '#' :: c) = ws1 ++ a :: (X ++ ws) ++ '#' :: c := by simp
+      rw [e, hc']; simp
+
+/-! ## Line level -/
+
+theorem splitEq_append {A : List Char} (h : '=' ∉ A) (B : List Char) :
+    splitEq (A ++ '=' :: B) = some (A, B) := by
+  induction A with
+  | nil => simp [splitEq]
+  | cons a A ih =>
+    have ha : a ≠ '=' := fun e => h (by simp [e])
+    have hA : '=' ∉ A := fun e => h (by simp [e])
+    simp [splitEq, ha, ih hA]
+
+theorem bareKey_facts {k : List Char} (h : bareKey k = true) :
+    k ≠ [] ∧ ∀ c ∈ k, keyChar c = true := by
+  cases k <;> simp_all [bareKey]
+
+theorem bareKey_tight {k : List Char} (h : bareKey k = true) : tight k :=
+  tight_of_noSpace (bareKey_facts h).1 (fun c hc => (keyChar_facts ((bareKey_facts h).2 c hc)).1)
+
+theorem tight_wrap {A B C : List Char} (hA : tight A) (hC : tight C) : tight (A ++ B ++ C) := by
+  obtain ⟨hAne, hAh, _⟩ := hA
+  obtain ⟨hCne, _, hCl⟩ := hC
+  refine ⟨by simp [hAne], ?_, ?_⟩
+  · intro a ha
+    cases A with
+    | nil => exact absurd rfl hAne
+    | cons x A => exact hAh a (by simpa using ha)
+  · intro a ha
+    rcases List.eq_nil_or_concat C with rfl | ⟨r, b, rfl⟩
+    · exact absurd rfl hCne
+    · apply hCl a
+      simp only [List.concat_eq_append] at ha ⊢
+      rw [← List.append_assoc, List.getLast?_concat] at ha
+      rw [List.getLast?_concat]; exact ha
+
+/-- the already trimmed `key ws = ws value tail` line -/
+theorem parseLine_core (pf : List Char → Bool) (hpf : ∀ t, floatRaw t = true → pf t = true)
+    {k ws2 ws3 rest : List Char} {v : WVal} (hk : bareKey k = true) (hv : writable v = true)
+    (h2 : allSp ws2) (h3 : allSp ws3) (ht : Tail rest) :
+    parseLine pf (k ++ ws2 ++ '=' :: (ws3 ++ formatValue v ++ rest)) = .kv k (expectRead v) := by
+  obtain ⟨hkne, hkc⟩ := bareKey_facts hk
+  have hsplit : splitEq (k ++ ws2 ++ '=' :: (ws3 ++ formatValue v ++ rest))
+      = some (k ++ ws2, ws3 ++ formatValue v ++ rest) := by
+    apply splitEq_append
+    intro h
+    rcases List.mem_append.mp h with h | h
+    · exact (keyChar_facts (hkc _ h)).2.1 rfl
+    · exact (isSpace_facts (h2 _ h)).2.2.2.1 rfl
+  have hkey : trimSpace (k ++ ws2) = k := by
+    have := trimSpace_sandwich allSp_nil h2 (bareKey_tight hk)
+    simpa using this
+  obtain ⟨rest', ht', hval⟩ := trimSpace_tail h3 (formatValue_tight hv) ht
+  cases k with
+  | nil => exact absurd rfl hkne
+  | cons k0 kr =>
+    have hk0 := keyChar_facts (hkc k0 (by simp))
+    unfold parseLine
+    rw [hsplit]
+    have c1 : ((k0 :: kr ++ ws2 ++ '=' :: (ws3 ++ formatValue v ++ rest)).isEmpty
+        || (k0 :: kr ++ ws2 ++ '=' :: (ws3 ++ formatValue v ++ rest)).head? == some '#') = false := by
+      simp [hk0.2.2.1]
+    have c2 : ((k0 :: kr ++ ws2 ++ '=' :: (ws3 ++ formatValue v ++ rest)).head? == some '['
+        && (k0 :: kr ++ ws2 ++ '=' :: (ws3 ++ formatValue v ++ rest)).getLast? == some ']') = false := by
+      simp [hk0.2.2.2.1]
+    rw [c1, c2]
+    simp only [Bool.false_eq_true, if_false]
+    rw [hkey, hval, stripInlineComment_formatValue hv ht', parseValue_formatValue pf hpf v hv]
+
+/-- general form: blanks before the key, around `=`, and a `Tail` after the value -/
+theorem parseLine_general (pf : List Char → Bool) (hpf : ∀ t, floatRaw t = true → pf t = true)
+    {ws1 k ws2 ws3 rest : List Char} {v : WVal} (hk : bareKey k = true) (hv : writable v = true)
+    (h1 : allSp ws1) (h2 : allSp ws2) (h3 : allSp ws3) (ht : Tail rest) :
+    parseLine pf (trimSpace (ws1 ++ k ++ ws2 ++ ['='] ++ ws3 ++ formatValue v ++ rest))
+      = .kv k (expectRead v) := by
+  have hM : tight (k ++ (ws2 ++ '=' :: ws3) ++ formatValue v) :=
+    tight_wrap (bareKey_tight hk) (formatValue_tight hv)
+  obtain ⟨rest', ht', htrim⟩ := trimSpace_tail h1 hM ht
+  have e1 : ws1 ++ k ++ ws2 ++ ['='] ++ ws3 ++ formatValue v ++ rest
+      = ws1 ++ (k ++ (ws2 ++ '=' :: ws3) ++ formatValue v) ++ rest := by simp
+  have e2 : k ++ (ws2 ++ '=' :: ws3) ++ formatValue v ++ rest'
+      = k ++ ws2 ++ '=' :: (ws3 ++ formatValue v ++ rest') := by simp
+  rw [e1, htrim, e2]
+  exact parseLine_core pf hpf hk hv h2 h3 ht'
+
+/-- 2a. Line level: a written `key = value` line is read back as that key and value. -/
+theorem parseLine_formatLine (pf : List Char → Bool) (hpf : ∀ t, floatRaw t = true → pf t = true)
+    {k : List Char} {v : WVal} (hk : bareKey k = true) (hv : writable v = true) :
+    parseLine pf (trimSpace (k ++ " = ".toList ++ formatValue v)) = .kv k (expectRead v) := by
+  have hsp : allSp [' '] := by intro c hc; simp at hc; subst hc; decide
+  have := parseLine_general pf hpf (ws1 := []) (ws2 := [' ']) (ws3 := [' ']) (rest := [])
+    hk hv allSp_nil hsp hsp (Or.inl allSp_nil)
+  have e : k ++ " = ".toList ++ formatValue v
+      = [] ++ k ++ [' '] ++ ['='] ++ [' '] ++ formatValue v ++ [] := by
+    rw [show " = ".toList = [' ', '=', ' '] by decide]; simp
+  rw [e]; exact this
+
+/-- 2b. blanks_inert (line level): any blanks before the key, around `=` and after the value. -/
+theorem parseLine_blanks_inert (pf : List Char → Bool) (hpf : ∀ t, floatRaw t = true → pf t = true)
+    {ws1 k ws2 ws3 ws4 : List Char} {v : WVal} (hk : bareKey k = true) (hv : writable v = true)
+    (h1 : blanks ws1 = true) (h2 : blanks ws2 = true) (h3 : blanks ws3 = true)
+    (h4 : blanks ws4 = true) :
+    parseLine pf (trimSpace (ws1 ++ k ++ ws2 ++ ['='] ++ ws3 ++ formatValue v ++ ws4))
+      = .kv k (expectRead v) :=
+  parseLine_general pf hpf hk hv (blanks_allSp h1) (blanks_allSp h2) (blanks_allSp h3)
+    (Or.inl (blanks_allSp h4))
+
+/-- 2c. comments_inert (line level): a trailing `# …` comment with ANY text `c` changes nothing. -/
+theorem parseLine_comment_inert (pf : List Char → Bool) (hpf : ∀ t, floatRaw t = true → pf t = true)
+    {ws1 k ws2 ws3 ws4 : List Char} {v : WVal} (c : List Char)
+    (hk : bareKey k = true) (hv : writable v = true)
+    (h1 : blanks ws1 = true) (h2 : blanks ws2 = true) (h3 : blanks ws3 = true)
+    (h4 : blanks ws4 = true) :
+    parseLine pf (trimSpace (ws1 ++ k ++ ws2 ++ ['='] ++ ws3 ++ formatValue v ++ (ws4 ++ ['#'] ++ c)))
+      = .kv k (expectRead v) :=
+  parseLine_general pf hpf hk hv (blanks_allSp h1) (blanks_allSp h2) (blanks_allSp h3)
+    (Or.inr ⟨ws4, c, blanks_allSp h4, by simp⟩)
+
+/-- 3a. a line of blanks is skipped -/
+theorem parseLine_skip_blank (pf : List Char → Bool) {l : List Char} (h : allSp l) :
+    parseLine pf (trimSpace l) = .skip := by
+  rw [trimSpace_allSp h]; rfl
+
+/-- 3b. a line whose first non-blank character is `#` is skipped -/
+theorem parseLine_skip_comment (pf : List Char → Bool) {ws : List Char} (c : List Char)
+    (h : allSp ws) : parseLine pf (trimSpace (ws ++ '#' :: c)) = .skip := by
+  have hdrop : trimLeft (ws ++ '#' :: c) = '#' :: c :=
+    dropWhile_all_append (p := isSpace) h (by intro a ha; simp at ha; subst ha; decide)
+  obtain ⟨Y', hY⟩ := dropWhile_append_stop (p := isSpace) (a := '#') (by decide) c.reverse []
+  have : trimSpace (ws ++ '#' :: c) = '#' :: Y'.reverse := by
+    unfold trimSpace
+    rw [hdrop]; unfold trimRight
+    rw [List.reverse_cons, hY]
+    simp
+  rw [this]; rfl
+
+/-! ## Lines of a text -/
+
+theorem splitLines_go_run (l rest : List Char) (h : '\n' ∉ l) :
+    ∀ cur, splitLines.go (l ++ rest) cur = splitLines.go rest (l.reverse ++ cur) := by
+  induction l with
+  | nil => intro cur; rfl
+  | cons a l ih =>
+    intro cur
+    have ha : a ≠ '\n' := fun e => h (by simp [e])
+    have hl : '\n' ∉ l := fun e => h (by simp [e])
+    rw [List.cons_append, splitLines.go]
+    simp only [beq_iff_eq, ha, if_false]
+    rw [ih hl]; simp
+
+/-- a first line without LF that does not end in CR is split off unchanged -/
+theorem splitLines_line {l : List Char} (rest : List Char) (h : '\n' ∉ l)
+    (hr : l.getLast? ≠ some '\r') : splitLines (l ++ '\n' :: rest) = l :: splitLines rest := by
+  unfold splitLines
+  rw [splitLines_go_run l _ h, splitLines.go]
+  simp [hr]
+
+/-- the parser's loop on a text -/
+def parseText (pf : List Char → Bool) (text : List Char) (d : Data) (cur : List Char) : Option Data :=
+  parseLines pf (splitLines text) d cur
+
+/-- section a key/value line lands in -/
+def secName (cur : List Char) : List Char := if cur.isEmpty then "default".toList else cur
+
+theorem parseText_nil (pf : List Char → Bool) (d : Data) (cur : List Char) :
+    parseText pf [] d cur = some d := rfl
+
+theorem tight_not_CR {m : List Char} (h : tight m) : m.getLast? ≠ some '\r' := by
+  intro e
+  have := h.2.2 _ e
+  revert this; decide
+
+theorem parseText_formatLine (pf : List Char → Bool) (hpf : ∀ t, floatRaw t = true → pf t = true)
+    {k : List Char} {v : WVal} (hk : bareKey k = true) (hv : writable v = true)
+    (rest : List Char) (d : Data) (cur : List Char) :
+    parseText pf (formatLine k v ++ rest) d cur
+      = parseText pf rest (setIn d (secName cur) k (expectRead v)) cur := by
+  have hsp : " = ".toList = [' ', '=', ' '] := by decide
+  have hnl : '\n' ∉ k ++ " = ".toList ++ formatValue v := by
+    intro h
+    rcases List.mem_append.mp h with h | h
+    · rcases List.mem_append.mp h with h | h
+      · exact (keyChar_facts ((bareKey_facts hk).2 _ h)).2.2.2.2 rfl
+      · rw [hsp] at h; revert h; decide
+    · exact formatValue_noLF hv h
+  have hcr : (k ++ " = ".toList ++ formatValue v).getLast? ≠ some '\r' :=
+    tight_not_CR (tight_wrap (bareKey_tight hk) (formatValue_tight hv))
+  have e : formatLine k v ++ rest = (k ++ " = ".toList ++ formatValue v) ++ '\n' :: rest := by
+    simp [formatLine]
+  unfold parseText
+  rw [e, splitLines_line rest hnl hcr, parseLines, parseLine_formatLine pf hpf hk hv]
+  rfl
+
+/-- entries of one section, applied in order -/
+def applyEntries (sec : List Char) (d : Data) (es : List (List Char × WVal)) : Data :=
+  es.foldl (fun d e => setIn d sec e.1 (expectRead e.2)) d
+
+theorem parseText_entries (pf : List Char → Bool) (hpf : ∀ t, floatRaw t = true → pf t = true)
+    (rest : List Char) (cur : List Char) (es : List (List Char × WVal)) :
+    ∀ d, (∀ e ∈ es, bareKey e.1 = true ∧ writable e.2 = true) →
+      parseText pf ((es.map fun (k, v) => formatLine k v).flatten ++ rest) d cur
+        = parseText pf rest (applyEntries (secName cur) d es) cur := by
+  induction es with
+  | nil => intro d _; rfl
+  | cons e es ih =>
+    intro d h
+    obtain ⟨hk, hv⟩ := h e (by simp)
+    rw [List.map_cons, List.flatten_cons, List.append_assoc]
+    show parseText pf (formatLine e.1 e.2 ++ _) d cur = _
+    rw [parseText_formatLine pf hpf hk hv, ih _ (fun e' he' => h e' (by simp [he']))]
+    rfl
+
+theorem parseText_header (pf : List Char → Bool) {n : List Char} (hn : bareKey n = true)
+    (rest : List Char) (d : Data) (cur : List Char) :
+    parseText pf ("\n[".toList ++ n ++ "]\n".toList ++ rest) d cur
+      = parseText pf rest (ensureSection d n) n := by
+  have e : "\n[".toList ++ n ++ "]\n".toList ++ rest
+      = [] ++ '\n' :: (('[' :: n ++ [']']) ++ '\n' :: rest) := by
+    rw [show "\n[".toList = ['\n', '['] by decide, show "]\n".toList = [']', '\n'] by decide]
+    simp
+  have hnl : '\n' ∉ '[' :: n ++ [']'] := by
+    intro h
+    simp at h
+    exact (keyChar_facts ((bareKey_facts hn).2 _ h)).2.2.2.2 rfl
+  have hlast : ('[' :: n ++ [']']).getLast? = some ']' := by
+    rw [show '[' :: n ++ [']'] = ('[' :: n) ++ [']'] from rfl, List.getLast?_concat]
+  have hcr : ('[' :: n ++ [']']).getLast? ≠ some '\r' := by rw [hlast]; decide
+  have htight : tight ('[' :: n ++ [']']) := by
+    refine ⟨by simp, ?_, ?_⟩
+    · intro a ha; simp at ha; subst ha; decide
+    · intro a ha; rw [hlast] at ha; cases ha; decide
+  have htrim : trimSpace ('[' :: n ++ [']']) = '[' :: n ++ [']'] := by
+    have := trimSpace_sandwich allSp_nil allSp_nil htight
+    simpa using this
+  have hname : trimSpace n = n := by
+    have := trimSpace_sandwich allSp_nil allSp_nil (bareKey_tight hn)
+    simpa using this
+  have hline : parseLine pf ('[' :: n ++ [']']) = .section n := by
+    unfold parseLine
+    have c1 : (('[' :: n ++ [']']).isEmpty || ('[' :: n ++ [']']).head? == some '#') = false := by
+      simp
+    have c2 : (('[' :: n ++ [']']).head? == some '[' && ('[' :: n ++ [']']).getLast? == some ']') = true := by
+      rw [hlast]; simp
+    rw [c1, c2]
+    simp only [Bool.false_eq_true, if_false, if_true]
+    have : (('[' :: n ++ [']']).drop 1).dropLast = n := by
+      show (n ++ [']']).dropLast = n
+      exact List.dropLast_concat
+    rw [this, hname]
+  unfold parseText
+  rw [e, splitLines_line _ (by simp) (by simp), splitLines_line _ hnl hcr]
+  rw [parseLines]
+  have h0 : parseLine pf (trimSpace []) = .skip := rfl
+  rw [h0]
+  show parseLines pf (('[' :: n ++ [']']) :: splitLines rest) d cur = _
+  rw [parseLines, htrim, hline]
+
+abbrev WSection := List Char × List (List Char × WVal)
+
+/-- effect of one written section on the parser's data -/
+def applySec (d : Data) (s : WSection) : Data :=
+  applyEntries s.1 (if s.1 == "default".toList then d else ensureSection d s.1) s.2
+
+def okEntries (es : List (List Char × WVal)) : Prop :=
+  ∀ e ∈ es, bareKey e.1 = true ∧ writable e.2 = true
+
+theorem secName_of_bareKey {n : List Char} (hn : bareKey n = true) : secName n = n := by
+  have := (bareKey_facts hn).1
+  cases n with
+  | nil => exact absurd rfl this
+  | cons a r => rfl
+
+theorem parseText_section (pf : List Char → Bool) (hpf : ∀ t, floatRaw t = true → pf t = true)
+    {n : List Char} {es : List (List Char × WVal)} (hn : bareKey n = true)
+    (hnd : n ≠ "default".toList) (hes : okEntries es) (rest : List Char) (d : Data) (cur : List Char) :
+    parseText pf (writeSection n es ++ rest) d cur = parseText pf rest (applySec d (n, es)) n := by
+  have hb : (n == "default".toList) = false := by simpa using hnd
+  unfold writeSection applySec
+  simp only [hb, Bool.false_eq_true, if_false]
+  rw [List.append_assoc, parseText_header pf hn, parseText_entries pf hpf rest n es _ hes,
+    secName_of_bareKey hn]
+
+theorem parseText_section_default (pf : List Char → Bool)
+    (hpf : ∀ t, floatRaw t = true → pf t = true)
+    {es : List (List Char × WVal)} (hes : okEntries es) (rest : List Char) (d : Data) :
+    parseText pf (writeSection "default".toList es ++ rest) d []
+      = parseText pf rest (applySec d ("default".toList, es)) [] := by
+  unfold writeSection applySec
+  simp only [beq_self_eq_true, if_true, List.nil_append]
+  rw [parseText_entries pf hpf rest [] es _ hes]
+  rfl
+
+theorem parseText_sections (pf : List Char → Bool) (hpf : ∀ t, floatRaw t = true → pf t = true)
+    (secs : List WSection) :
+    ∀ d cur, (∀ s ∈ secs, bareKey s.1 = true ∧ s.1 ≠ "default".toList ∧ okEntries s.2) →
+      parseText pf ((secs.map fun s => writeSection s.1 s.2).flatten) d cur
+        = some (secs.foldl applySec d) := by
+  induction secs with
+  | nil => intro d cur _; rfl
+  | cons s secs ih =>
+    intro d cur h
+    obtain ⟨h1, h2, h3⟩ := h s (by simp)
+    rw [List.map_cons, List.flatten_cons, parseText_section pf hpf h1 h2 h3,
+      ih _ _ (fun s' hs' => h s' (by simp [hs']))]
+    rfl
+
+/-! ## What the parser's data contains -/
+
+def tlookup (t : Table) (k : List Char) : Option PVal := (t.find? (·.1 == k)).map (·.2)
+
+/-- value of key `k` in section `n` -/
+def lookup (d : Data) (n k : List Char) : Option PVal :=
+  (d.find? (·.1 == n)).bind fun s => tlookup s.2 k
+
+theorem find?_filter_ne (t : Table) (k k' : List Char) :
+    (t.filter (·.1 != k)).find? (·.1 == k') = if k' = k then none else t.find? (·.1 == k') := by
+  induction t with
+  | nil => simp
+  | cons a t ih =>
+    rw [List.filter_cons]
+    by_cases h1 : a.1 = k
+    · have e1 : (a.1 != k) = false := by simp [h1]
+      rw [e1]; simp only [Bool.false_eq_true, if_false]; rw [ih]
+      by_cases h2 : k' = k
+      · rw [if_pos h2, if_pos h2]
+      · rw [if_neg h2, if_neg h2, List.find?_cons]
+        have e2 : (a.1 == k') = false := by
+          rw [h1]; exact beq_eq_false_iff_ne.mpr (fun e => h2 e.symm)
+        rw [e2]
+    · have e1 : (a.1 != k) = true := by simp [h1]
+      rw [e1]; simp only [if_true]; rw [List.find?_cons, ih]
+      by_cases h2 : k' = k
+      · rw [if_pos h2, if_pos h2]
+        have e2 : (a.1 == k') = false := by
+          rw [h2]; exact beq_eq_false_iff_ne.mpr h1
+        rw [e2]
+      · rw [if_neg h2, if_neg h2, List.find?_cons]
+
+theorem tlookup_setKey (t : Table) (k k' : List Char) (v : PVal) :
+    tlookup (setKey t k v) k' = if k' = k then some v else tlookup t k' := by
+  unfold tlookup setKey
+  rw [List.find?_append, find?_filter_ne]
+  by_cases h : k' = k
+  · simp [h]
+  · have : (k == k') = false := beq_eq_false_iff_ne.mpr (fun e => h e.symm)
+    simp [h, this]
+
+theorem find?_ensureSection_self (d : Data) (s : List Char) :
+    ∃ x, (ensureSection d s).find? (·.1 == s) = some x := by
+  unfold ensureSection
+  split
+  next h =>
+    have : (d.find? (·.1 == s)).isSome = true := by
+      rw [List.find?_isSome]; exact List.any_eq_true.mp h
+    exact Option.isSome_iff_exists.mp this
+  next h =>
+    have : d.find? (·.1 == s) = none := by
+      rw [List.find?_eq_none]
+      exact fun x hx hp => h (List.any_eq_true.mpr ⟨x, hx, hp⟩)
+    exact ⟨(s, []), by simp [List.find?_append, this]⟩
+
+theorem lookup_ensureSection (d : Data) (s n k : List Char) :
+    lookup (ensureSection d s) n k = lookup d n k := by
+  unfold lookup ensureSection
+  split
+  · rfl
+  next h =>
+    rw [List.find?_append]
+    cases hf : d.find? (·.1 == n) with
+    | some x => simp
+    | none =>
+      by_cases hn : s = n
+      · simp [hn, tlookup]
+      · simp [hn]
+
+theorem lookup_map_setKey (e : Data) (s k : List Char) (v : PVal) (n k' : List Char)
+    (hs : ∃ x, e.find? (·.1 == s) = some x) :
+    lookup (e.map fun (n, t) => if n == s then (n, setKey t k v) else (n, t)) n k'
+      = if n = s ∧ k' = k then some v else lookup e n k' := by
+  unfold lookup
+  have hcomp : ((fun x : List Char × Table => x.1 == n) ∘
+      fun x : List Char × Table => if x.1 == s then (x.1, setKey x.2 k v) else (x.1, x.2))
+      = fun x => x.1 == n := by
+    funext x; simp only [Function.comp]; split <;> rfl
+  have hf : (e.map fun (n, t) => if n == s then (n, setKey t k v) else (n, t))
+      = e.map fun x : List Char × Table => if x.1 == s then (x.1, setKey x.2 k v) else (x.1, x.2) := rfl
+  rw [hf, List.find?_map, hcomp]
+  cases hfind : e.find? (·.1 == n) with
+  | none =>
+    have : ¬ (n = s ∧ k' = k) := by
+      rintro ⟨rfl, _⟩
+      obtain ⟨x, hx⟩ := hs
+      rw [hfind] at hx; cases hx
+    simp [this]
+  | some x =>
+    have hx : x.1 = n := by simpa using List.find?_some hfind
+    show tlookup (if (x.1 == s) = true then (x.1, setKey x.2 k v) else (x.1, x.2)).2 k' = _
+    by_cases hn : n = s
+    · have : (x.1 == s) = true := by simp [hx, hn]
+      rw [if_pos this]
+      simp [tlookup_setKey, hn]
+    · have : ¬ (x.1 == s) = true := by simp [hx, hn]
+      rw [if_neg this]
+      simp [hn]
+
+theorem lookup_setIn (d : Data) (s k : List Char) (v : PVal) (n k' : List Char) :
+    lookup (setIn d s k v) n k' = if n = s ∧ k' = k then some v else lookup d n k' := by
+  rw [← lookup_ensureSection d s n k']
+  exact lookup_map_setKey _ s k v n k' (find?_ensureSection_self d s)
 
 end FerretVerif.Toml
